@@ -13,6 +13,11 @@
 //!         big     short-loca fonts encoded to WOFF2 by the harness's own encoder, sized so that the
 //!                 glyf table allsorts rebuilds is below / exactly 131070 / 131072 / above
 //!                 -> Woff2TableProvider table sets, subset and whole_font on that provider
+//!         coll    WOFF2 collections (`ttcf` flavour, written by the harness's encoder) and OpenType collections
+//!                 (TTC) whose members differ in numGlyphs, numberOfHMetrics, loca format, unitsPerEm, glyf / hmtx
+//!                 transform, shared / private tables: EVERY member index is requested (and one past the end);
+//!                 table sets, subset, whole_font, instance per member, judged against the member's own tables
+//!                 and against what the harness prescribed for that member (SfntWrite!MemberOK)
 //!       repository fonts chosen by MEASURED features (survey + greedy cover, then by seed):
 //!         whole_font / subset / prince::subset / instance, WOFF2 re-encodings of TrueType fonts
 //!         chosen by the measured size of the rebuilt glyf table.
@@ -49,6 +54,8 @@ use vh::util::{read_ndjson, repo_fonts, NdWriter};
 mod brotli;
 #[path = "c09_written/cffb.rs"]
 mod cffb;
+#[path = "c09_written/coll.rs"]
+mod coll;
 #[path = "c09_written/derive.rs"]
 mod derive;
 #[allow(dead_code)]
@@ -330,6 +337,8 @@ fn cross_of(get: &dyn Fn(&str) -> Option<Vec<u8>>, built: (bool, bool, bool), sr
         Some(c) => cffb::walk_cff(&c).facts,
         None => cffb::no_cff(),
     };
+    // what the harness prescribed for the collection member / table set this came from (filled in by the caller)
+    x["member"] = coll::no_member();
     (x, layouts)
 }
 
@@ -349,10 +358,12 @@ struct Rec {
     ops: BTreeMap<String, usize>,
     /// vacuity counters: how often each family of behaviour was exercised by a judged output
     fam: BTreeMap<String, usize>,
+    /// the prescribed facts of the collection member whose provider the next operations are run on
+    cur_member: Option<coll::Want>,
 }
 impl Rec {
     fn new(out: &str) -> Rec {
-        Rec { w: NdWriter::create(out), i: 0, refused: 0, panics: vec![], ops: BTreeMap::new(), fam: BTreeMap::new() }
+        Rec { w: NdWriter::create(out), i: 0, refused: 0, panics: vec![], ops: BTreeMap::new(), fam: BTreeMap::new(), cur_member: None }
     }
     fn bump(&mut self, k: &str) {
         *self.fam.entry(k.to_string()).or_default() += 1;
@@ -374,6 +385,16 @@ impl Rec {
                 let can = ["maxp", "hhea", "hmtx", "head"].iter().all(|t| get(t).is_some());
                 if reload && can {
                     x["reload"] = reload_sfnt(bytes);
+                }
+                if let Some(w) = self.cur_member.clone() {
+                    let w = &w;
+                    let tags: Vec<String> = vh::fontgen::read_sfnt_dir(bytes, 0).map(|d| d.records.iter().map(|r| tag_str(r.0)).collect()).unwrap_or_default();
+                    // whole_font hands tables on unchanged (glyf / loca / head / maxp are re-serialised): identities too
+                    x["member"] = coll::member_json(w, &get, &tags, op == "whole_font");
+                    self.bump(&format!("coll.{}.{}.judged", w.container, op));
+                    if w.index > 0 {
+                        self.bump(&format!("coll.{}.{}.member>0.judged", w.container, op));
+                    }
                 }
                 if built {
                     self.count_output(op, &x, &layouts, src);
@@ -816,6 +837,273 @@ fn record_synth(rec: &mut Rec, rng: &mut StdRng, deep: bool) {
 }
 
 
+
+// ---------------------------------------------------------------------------------------------
+// collections: every member, judged against its own tables and against what was prescribed for it
+// ---------------------------------------------------------------------------------------------
+
+/// Glyph lists for a member with `n` glyphs: everything, composites first (renumbering), the tail
+/// past numberOfHMetrics.
+fn member_id_lists(n: u16, nhm: u16, src: &SrcFacts) -> Vec<Vec<u16>> {
+    let mut lists: Vec<Vec<u16>> = vec![(0..n).collect()];
+    let mut c = vec![0u16];
+    c.extend(src.composites.iter().rev().filter(|g| **g != 0 && **g < n));
+    if c.len() > 1 {
+        lists.push(c);
+    }
+    if nhm < n {
+        let mut l = vec![0u16];
+        l.extend((nhm.max(1)..n).rev());
+        lists.push(l);
+    } else if n > 2 {
+        lists.push(vec![0, n - 1, 1]);
+    }
+    lists
+}
+
+/// Differences between member `i` and member 0 that a reader using member 0's table would trip over.
+/// Counted from the plan (harness inputs) when the member is REQUESTED.
+fn count_member_request(rec: &mut Rec, kind: &str, i: usize, w0: &coll::Want, wi: &coll::Want, hmtx_transformed: bool, glyf_transformed: bool) {
+    rec.bump(&format!("coll.{}.member-requested", kind));
+    if i == 0 {
+        return;
+    }
+    rec.bump(&format!("coll.{}.member>0-requested", kind));
+    if wi.nhm != w0.nhm {
+        rec.bump(&format!("coll.{}.member>0.nhm-differs", kind));
+        if hmtx_transformed {
+            rec.bump(&format!("coll.{}.member>0.nhm-differs+hmtx-transformed", kind));
+            rec.bump(&format!("coll.{}.member>0.nhm-{}-than-member0+hmtx-transformed", kind, if wi.nhm > w0.nhm { "larger" } else { "smaller" }));
+        }
+    }
+    if wi.num_glyphs != w0.num_glyphs {
+        rec.bump(&format!("coll.{}.member>0.numGlyphs-differs", kind));
+        rec.bump(&format!("coll.{}.member>0.numGlyphs-{}-than-member0", kind, if wi.num_glyphs > w0.num_glyphs { "larger" } else { "smaller" }));
+    }
+    if wi.loc_format != w0.loc_format {
+        rec.bump(&format!("coll.{}.member>0.locFormat-differs", kind));
+    }
+    if wi.upem != w0.upem {
+        rec.bump(&format!("coll.{}.member>0.upem-differs", kind));
+    }
+    if kind == "woff2" {
+        rec.bump(&format!("coll.woff2.member>0.glyf-{}", if glyf_transformed { "transformed" } else { "plain" }));
+        rec.bump(&format!("coll.woff2.member>0.hmtx-{}", if hmtx_transformed { "transformed" } else { "plain" }));
+    }
+}
+
+/// Asking for the member one past the end must not yield a font. An error (or a panic, which is C01's to
+/// report) produces no event; a provider that IS handed out is recorded and judged (NoSuchMember).
+fn request_past_the_end(rec: &mut Rec, kind: &str, case: &str, bytes: &[u8], n: usize) {
+    rec.bump(&format!("coll.{}.past-the-end-requested", kind));
+    let r = guarded(|| -> Result<usize, String> {
+        let fd = ReadScope::new(bytes).read::<FontData<'_>>().map_err(|e| format!("{:?}", e))?;
+        let p = fd.table_provider(n).map_err(|e| format!("{:?}", e))?;
+        Ok(p.table_tags().map(|t| t.len()).unwrap_or(0))
+    });
+    match r {
+        Outcome::Returned(Ok(tables)) => {
+            rec.i += 1;
+            let ev = json!({"i": rec.i, "case": case, "ev": "NoSuchMember",
+                            "a": {"op": "table_provider", "args": {"container": kind, "members": n, "index": n, "tables": tables}}, "o": {}});
+            rec.w.write(&ev);
+        }
+        Outcome::Returned(Err(_)) => rec.bump(&format!("coll.{}.past-the-end-refused", kind)),
+        Outcome::Panicked(m) => {
+            rec.bump(&format!("coll.{}.past-the-end-panicked", kind));
+            rec.panics.push(format!("table_provider({}) of a {} collection with {} members: {}", n, kind, n, m));
+        }
+    }
+}
+
+fn record_collections(rec: &mut Rec, rng: &mut StdRng, deep: bool) {
+    let glyf_t = tag::GLYF;
+    let hmtx_t = tag::HMTX;
+    // ---- WOFF2 collections ------------------------------------------------------------------------
+    for plan in coll::woff2_plans(rng, if deep { 24 } else { 3 }) {
+        let members: Vec<enc::Member> = plan
+            .members
+            .iter()
+            .map(|m| {
+                let mut ch = enc_choices(if plan.alt == 1 { 0x10 } else { 0 } | if m.hmtx_tr { 1 } else { 0 });
+                ch.glyf = if m.glyf_tr { 0 } else { 3 };
+                enc::Member { src: enc::SrcFont { flavor: m.flavor, tables: named(&m.tables) }, ch, share: m.share, idx_order: m.idx_order }
+            })
+            .collect();
+        let e = enc::encode_woff2_members(&members, true, rng);
+        let n = plan.members.len();
+        let wants: Vec<coll::Want> = plan.members.iter().enumerate().map(|(i, m)| coll::Want::of("woff2-collection", i as i64, n as i64, &m.tables, &[])).collect();
+        if n == 1 {
+            rec.bump("coll.woff2.single-member-collection");
+        }
+        let dir_index = |i: usize, t: u32| e.font_idx[i].iter().find(|k| e.entries[**k as usize].0 == t).cloned();
+        for i in 0..n {
+            let m = &plan.members[i];
+            let info = &e.fonts[i];
+            let case = format!("{}/member{}", plan.name, i);
+            let name = format!("{}[{}]={}", plan.name, i, m.label);
+            let tr = info.glyf_transformed;
+            let htr = info.hmtx_flags != 0;
+            count_member_request(rec, "woff2", i, &wants[0], &wants[i], htr, tr);
+            rec.bump(&format!("coll.woff2.idx-order:{}", m.idx_order));
+            // shared / private tables, read off the collection directory the encoder wrote
+            for j in 0..i {
+                let same = |t: u32| dir_index(i, t).is_some() && dir_index(i, t) == dir_index(j, t);
+                if same(glyf_t) && !same(hmtx_t) {
+                    rec.bump("coll.woff2.member>0.shared-glyf.private-hmtx");
+                    if htr {
+                        rec.bump("coll.woff2.member>0.shared-glyf.private-transformed-hmtx");
+                    }
+                }
+                if same(tag::HEAD) && same(tag::MAXP) && !same(tag::HHEA) {
+                    rec.bump("coll.woff2.member>0.shared-head-maxp.private-hhea");
+                }
+                if e.font_idx[i].iter().all(|k| e.font_idx[j].contains(k)) && e.font_idx[i].len() == e.font_idx[j].len() {
+                    rec.bump("coll.woff2.member>0.fully-shared");
+                }
+            }
+            if i > 0 && (0..i).all(|j| e.font_idx[i].iter().all(|k| !e.font_idx[j].contains(k))) {
+                rec.bump("coll.woff2.member>0.fully-private");
+            }
+            let bytes = &e.bytes;
+            let r = guarded(|| -> Result<TableMap, String> {
+                let fd = ReadScope::new(bytes).read::<FontData<'_>>().map_err(|e| format!("{:?}", e))?;
+                let p = fd.table_provider(i).map_err(|e| format!("{:?}", e))?;
+                Ok(tables_of(&p))
+            });
+            let args = json!({"font": name, "member": i, "members": n, "glyf_transformed": tr, "hmtx_flags": info.hmtx_flags,
+                              "share": m.share, "idx_order": m.idx_order, "file_choices": plan.alt, "note": info.note});
+            let tm = match r {
+                Outcome::Returned(Ok(tm)) => tm,
+                Outcome::Returned(Err(_)) => {
+                    rec.refused += 1;
+                    rec.bump("coll.woff2.member.refused");
+                    continue;
+                }
+                Outcome::Panicked(msg) => {
+                    rec.panics.push(format!("woff2 collection {}: {}", name, msg));
+                    continue;
+                }
+            };
+            let src = measure(&getter_of(&m.tables));
+            let get = |t: &str| tm.get(&tag_u32(t)).cloned();
+            let (mut x, _) = cross_of(&get, (htr, tr, tr), tr && src.lsb_clean, "woff2", Some(&src));
+            let mut rebuilt: Vec<&str> = vec![];
+            if tr {
+                rebuilt.extend(["glyf", "loca", "head"]);
+            }
+            if htr {
+                rebuilt.push("hmtx");
+            }
+            let got_tags: Vec<String> = tm.keys().map(|t| tag_str(*t)).collect();
+            x["member"] = coll::member_json(&wants[i].with_rebuilt(&rebuilt), &get, &got_tags, true);
+            let prov = MapProvider { tables: tm.clone() };
+            x["reload"] = reload_value(guarded(|| reload_provider(prov.clone())));
+            rec.tables(&case, "woff2", args, x);
+            rec.op("woff2-member-tables");
+            rec.bump("coll.woff2-collection.tables.judged");
+            if i > 0 {
+                rec.bump("coll.woff2-collection.tables.member>0.judged");
+            }
+            // the member's provider as the source of further writing operations
+            let Ok(fd) = ReadScope::new(bytes).read::<FontData<'_>>() else { continue };
+            let Outcome::Returned(Ok(p)) = guarded(|| fd.table_provider(i)) else { continue };
+            let s2 = measure(&get);
+            let tm_tables: Tables9 = tm.iter().map(|(t, d)| (tag_str(*t), d.clone())).collect();
+            let nn = be16(tm.get(&tag::MAXP).map(|v| v.as_slice()).unwrap_or(&[]), 4).unwrap_or(0);
+            let nhm = be16(tm.get(&tag::HHEA).map(|v| v.as_slice()).unwrap_or(&[]), 34).unwrap_or(0);
+            rec.cur_member = Some(wants[i].clone());
+            for (li, ids) in member_id_lists(nn, nhm, &s2).iter().enumerate() {
+                do_subset(rec, &format!("{}/subset{}", case, li), &name, &p, ids, "subset", &s2);
+            }
+            // whole_font is judged against its own input: the table set the provider holds
+            rec.cur_member = Some(coll::Want::of("woff2-collection", i as i64, n as i64, &tm_tables, &["glyf", "loca", "head", "maxp"]));
+            let tags: Vec<u32> = m.tables.iter().map(|t| tag_u32(&t.0)).collect();
+            do_whole_font(rec, &format!("{}/whole", case), &name, &p, &tags);
+            rec.cur_member = None;
+        }
+        request_past_the_end(rec, "woff2", &format!("{}/member{}", plan.name, n), &e.bytes, n);
+    }
+    // ---- OpenType collections -----------------------------------------------------------------------
+    for plan in coll::ttc_plans(rng, if deep { 12 } else { 1 }) {
+        let ttc = coll::build_ttc(&plan.members, plan.alt);
+        let n = plan.members.len();
+        let wants: Vec<coll::Want> =
+            plan.members.iter().enumerate().map(|(i, m)| coll::Want::of("ttc", i as i64, n as i64, &m.tables, &["glyf", "loca", "head", "maxp"])).collect();
+        rec.bump(&format!("coll.ttc.layout:{}", plan.alt));
+        let bytes = &ttc.bytes;
+        let fd = match guarded(|| ReadScope::new(bytes).read::<FontData<'_>>()) {
+            Outcome::Returned(Ok(fd)) => fd,
+            Outcome::Returned(Err(_)) => {
+                rec.refused += 1;
+                rec.bump("coll.ttc.file.refused");
+                continue;
+            }
+            Outcome::Panicked(m) => {
+                rec.panics.push(format!("ttc {}: {}", plan.name, m));
+                continue;
+            }
+        };
+        for i in 0..n {
+            let m = &plan.members[i];
+            let case = format!("{}/member{}", plan.name, i);
+            let name = format!("{}[{}]={}", plan.name, i, m.label);
+            count_member_request(rec, "ttc", i, &wants[0], &wants[i], false, false);
+            for j in 0..i {
+                let same = |t: &str| ttc.offsets[i].get(t).is_some() && ttc.offsets[i].get(t) == ttc.offsets[j].get(t);
+                if same("glyf") && !same("hmtx") {
+                    rec.bump("coll.ttc.member>0.shared-glyf.private-hmtx");
+                }
+            }
+            if i > 0 && (0..i).all(|j| ttc.offsets[i].values().all(|o| !ttc.offsets[j].values().any(|p| p == o))) {
+                rec.bump("coll.ttc.member>0.fully-private");
+            }
+            let p = match guarded(|| fd.table_provider(i)) {
+                Outcome::Returned(Ok(p)) => p,
+                Outcome::Returned(Err(_)) => {
+                    rec.refused += 1;
+                    rec.bump("coll.ttc.member.refused");
+                    continue;
+                }
+                Outcome::Panicked(msg) => {
+                    rec.panics.push(format!("ttc {}: {}", name, msg));
+                    continue;
+                }
+            };
+            // the source facts are measured on the harness's own copy of the member's tables
+            let mut src = measure(&getter_of(&m.tables));
+            if src.kind == "cff" {
+                rec.bump(if i > 0 { "coll.ttc.member>0.cff" } else { "coll.ttc.member0.cff" });
+            }
+            src.features.insert("container:ttc".into());
+            rec.cur_member = Some(wants[i].clone());
+            let tags: Vec<u32> = m.tables.iter().map(|t| tag_u32(&t.0)).collect();
+            do_whole_font(rec, &format!("{}/whole", case), &name, &p, &tags);
+            let (nn, nhm) = (wants[i].num_glyphs.max(0) as u16, wants[i].nhm.max(0) as u16);
+            let lists = member_id_lists(nn, nhm, &src);
+            for (li, ids) in lists.iter().enumerate() {
+                rec.bump(if i > 0 { "coll.ttc.member>0.subset-requested" } else { "coll.ttc.member0.subset-requested" });
+                do_subset(rec, &format!("{}/subset{}", case, li), &name, &p, ids, "subset", &src);
+            }
+            do_subset(rec, &format!("{}/prince", case), &name, &p, &lists[lists.len() - 1], "prince:unrestricted", &src);
+            if m.var {
+                let mut coords: Vec<(f32, f32)> = vec![(0.0, 0.0), (1.0, 0.0), (-1.0, -1.0), (0.47, 0.3)];
+                if deep {
+                    coords.extend([(0.5, 0.0), (0.0, 1.0), (rng.gen_range(-1.0..=1.0), rng.gen_range(-1.0..=1.0))]);
+                }
+                for (ci, c) in coords.iter().enumerate() {
+                    rec.bump(if i > 0 { "coll.ttc.member>0.instance-requested" } else { "coll.ttc.member0.instance-requested" });
+                    do_instance(rec, &format!("{}/instance{}", case, ci), &name, &p, &[Fixed::from(c.0), Fixed::from(c.1)], &src);
+                }
+            }
+            rec.cur_member = None;
+        }
+        request_past_the_end(rec, "ttc", &format!("{}/member{}", plan.name, n), &ttc.bytes, n);
+    }
+}
+
+type Tables9 = Vec<(String, Vec<u8>)>;
+
 // ---------------------------------------------------------------------------------------------
 // size boundaries of written CFF structures
 // ---------------------------------------------------------------------------------------------
@@ -989,6 +1277,7 @@ fn record(seed: u64, max_fonts: usize, out: &str, all_woff2: bool) {
     let mut rec = Rec::new(out);
     record_synth(&mut rec, &mut rng, all_woff2);
     record_cff_bounds(&mut rec, all_woff2);
+    record_collections(&mut rec, &mut rng, all_woff2);
 
     // ---- repository fonts: survey, then choose by measured features ---------------------------
     let mut paths = repo_fonts();
